@@ -78,13 +78,15 @@ MsgCopyIn(fmt, n) == [t |-> "G", wf |-> TRUE, fmt |-> fmt, n |-> n, fmts |-> [i 
 (*   [c |-> "bad"]                 a value no codec accepts                *)
 (* and arrives as  [null |-> TRUE]  (length -1, no payload) or             *)
 (* [null |-> FALSE, empty |-> (length = 0), val |-> canonical text decoded *)
-(* by an independent decoder in the announced format].                     *)
+(* by an independent decoder in the announced format, enc |-> the format    *)
+(* the field was actually found encoded in].                               *)
 (***************************************************************************)
-CellOut(c) == IF c.c = "null" THEN [null |-> TRUE]
-              ELSE [null |-> FALSE, empty |-> (c.c = "empty"), val |-> c.val]
+CellOut(c, fmt) == IF c.c = "null" THEN [null |-> TRUE]
+                   ELSE [null |-> FALSE, empty |-> (c.c = "empty"), val |-> c.val, enc |-> fmt]
 
-MsgDataRow(cells) == [t |-> "D", wf |-> TRUE, n |-> Len(cells),
-                      cells |-> [i \in DOMAIN cells |-> CellOut(cells[i])]]
+\* codes: the result-format codes in force (none in the simple protocol)
+MsgDataRow(cells, codes) == [t |-> "D", wf |-> TRUE, n |-> Len(cells),
+                             cells |-> [i \in DOMAIN cells |-> CellOut(cells[i], FormatOf(codes, i))]]
 
 RowEncodable(cells) == \A i \in DOMAIN cells : cells[i].c # "bad"
 
